@@ -118,8 +118,9 @@ def show(t: T.Any, depth: int = 0) -> str:
 
 
 class PathResolver:
-    def __init__(self, sp: SymPath, params: T.Iterable[str] = ()):
+    def __init__(self, sp: SymPath, params: T.Iterable[str] = (), mod: T.Any = None):
         self.sp = sp
+        self.mod = mod
         self.seq = 0
         self.iters: T.Dict[int, int] = {}
 
@@ -161,6 +162,12 @@ class PathResolver:
     def e_Call(self, e: ast.Call) -> Term:
         recv: T.Optional[Term] = None
         f = e.func
+        # a module-level alias `name = functools.partial(F, a, ...)`: name(x) is F(a, ..., x)
+        if isinstance(f, ast.Name) and self.mod is not None and f.id not in self.sp.env and self.mod.has_assign(f.id):
+            v = self.mod.assign_value(f.id)
+            if isinstance(v, ast.Call) and attr_chain(v.func) in ('functools.partial', 'partial') and v.args \
+                    and not any(isinstance(a, ast.Starred) for a in v.args) and all(k.arg for k in v.keywords):
+                return self.ev(ast.copy_location(ast.Call(func=v.args[0], args=list(v.args[1:]) + list(e.args), keywords=list(v.keywords) + list(e.keywords)), e))
         if isinstance(f, ast.Attribute):
             base = self.ev(f.value)
             if base[0] == 'name':
@@ -344,7 +351,7 @@ def sym_paths(fn: T.Union[ast.FunctionDef, ast.AsyncFunctionDef], *, body: T.Opt
                 return None
         stmts = unroll_table_loops(list(stmts), lookup)
     for p in enumerate_paths(stmts, unroll=unroll, handlers=handlers, pure=pure or set()):
-        out.append(PathResolver(SymPath(p)).run())
+        out.append(PathResolver(SymPath(p), mod=mod).run())
     return out
 
 
